@@ -177,7 +177,8 @@ fn check_close(rst: [u8; 2], rq: &[usize]) {
     kit::disarm();
     assert!(r.is_newly_closed() == !w.fulfilled, "[C11] NewlyClosed exactly once");
     let st = w.ch.inner.lock();
-    assert!(st.is_fulfilled && st.value == w.val, "[C11] close() is permanent and never touches a stored value");
+    assert!(st.value == w.val, "[C11] [C12] close() never touches a stored value: a value sent before the close is still delivered");
+    assert!(st.is_fulfilled, "[C11] close() is permanent");
     drop(st);
     let mut i = 0;
     while i < 2 {
